@@ -78,6 +78,85 @@ def _fn_value_refs(body):
     return out
 
 
+def _hir_nodes(n):
+    """Every dict node of a HIR tree (pre-order)."""
+    if isinstance(n, dict):
+        yield n
+        for v in n.values():
+            if isinstance(v, (dict, list)):
+                yield from _hir_nodes(v)
+    elif isinstance(n, list):
+        for x in n:
+            yield from _hir_nodes(x)
+
+
+def hir_inline(F, helpers):
+    """Source-level counterpart of the MIR inlining: a call of a helper outside the baseline decomposition is replaced, in the HIR tree of every
+    body, by the helper's body - parameters that receive a plain local are renamed to that local, the others are bound by a `let` in front.
+    Only helpers whose body is a plain expression (simple binding parameters, no `return`, no `?`) are spliced in; the rules that read the
+    source-level tree (kernel models, abstract interpretation of the scale updates, name tables) then see the helper's code where it is used."""
+    import copy
+    ok = {}
+    for p, b in helpers.items():
+        if not b.hir or b.kind not in ("fn", "method"):
+            continue
+        params = b.hir.get("params") or []
+        if not all(isinstance(q, dict) and q.get("k") == "Binding" for q in params):
+            continue
+        if any(n.get("k") in ("Ret", "Yield") for n in _hir_nodes(b.hir["value"])):
+            continue
+        ok[strip_generics(p)] = b
+    if not ok:
+        return 0
+    count = 0
+    targets = list(F.bodies.values()) + list(F.removed_helpers.values())
+    for _round in range(3):
+        changed = 0
+        for b in targets:
+            if not b.hir:
+                continue
+            for n in list(_hir_nodes(b.hir["value"])):
+                k = n.get("k")
+                callee, args = None, None
+                if k == "Call" and isinstance(n.get("f"), dict) and n["f"].get("k") == "Path":
+                    callee = (n["f"].get("res") or {}).get("def")
+                    args = n.get("args") or []
+                elif k == "MethodCall" and n.get("callee"):
+                    callee = n["callee"]
+                    args = [n.get("recv")] + list(n.get("args") or [])
+                if not callee:
+                    continue
+                hb = ok.get(strip_generics(callee))
+                if hb is None or hb is b:
+                    continue
+                params = hb.hir["params"]
+                if len(params) != len(args) or any(a is None for a in args):
+                    continue
+                body = copy.deepcopy(hb.hir["value"])
+                rename = {}
+                lets = []
+                for q, a in zip(params, args):
+                    a_ = a
+                    while isinstance(a_, dict) and a_.get("k") in ("AddrOf",) and False:
+                        a_ = a_.get("e")
+                    if isinstance(a_, dict) and a_.get("k") == "Path" and (a_.get("res") or {}).get("local"):
+                        rename[q["id"]] = a_["res"]
+                    else:
+                        lets.append({"k": "Let", "pat": copy.deepcopy(q), "init": a, "els": None, "src": "Normal", "span": n.get("span")})
+                if rename:
+                    for x in _hir_nodes(body):
+                        if x.get("k") == "Path" and (x.get("res") or {}).get("local") in rename:
+                            x["res"] = dict(rename[x["res"]["local"]])
+                new = {"k": "Block", "stmts": lets, "expr": body, "unsafe": False, "span": n.get("span"), "ty": n.get("ty"), "inlined_from": callee}
+                n.clear()
+                n.update(new)
+                changed += 1
+        count += changed
+        if not changed:
+            break
+    return count
+
+
 def normalise(F):
     """Inline helpers outside the baseline decomposition into their callers (in place). Returns the list of inlined helper paths."""
     base = baseline()
@@ -93,6 +172,7 @@ def normalise(F):
     F.inlined_helpers = []
     if not helpers:
         return []
+    F.hir_inlined = hir_inline(F, helpers)
 
     def pred(cb, t):
         return cb.path in helpers
